@@ -67,8 +67,10 @@ class FaultWrapper(object):
     return self._orig_rebuild()
 
   def _undo(self, checkpoint):
-    self.in_rollback = True
+    # _recompute_one_cell also reverts side effects of a failed formula through this method, possibly
+    # nested inside the rollback of a bundle: count the depth.
+    self.in_rollback += 1
     try:
       return self._orig_undo(checkpoint)
     finally:
-      self.in_rollback = 0
+      self.in_rollback -= 1
